@@ -1,7 +1,7 @@
 SPECIFICATION Spec
 CONSTANTS
   Pool3 = {1, 2, 3, 4, 5, 6}
-  Pool2 = {7, 8, 9}
+  Pool2 = {7, 8, 9, 12}
   MaxMsgs = 3
   EmitVectors = TRUE
 INVARIANTS OutPrefix NotEarly NotLate BufferSuffix Alive AllOut PrefixNeedMore
